@@ -165,7 +165,7 @@ class SMMapSetMeta:
             f"#BPMS:"
             + ",\n".join(
                 [
-                    f"{round(float(beat), 2)}={bpm.bpm}"
+                    f"{round(float(beat), 6)}={bpm.bpm}"
                     for beat, bpm in zip(bpm_beats, self[0].bpms)
                 ]
             )
@@ -173,7 +173,7 @@ class SMMapSetMeta:
             f"#STOPS:"
             + ",\n".join(
                 [
-                    f"{round(float(beat), 2)}={RAConst.msec_to_sec(stop.length)}"
+                    f"{round(float(beat), 6)}={RAConst.msec_to_sec(stop.length)}"
                     for beat, stop in zip(stop_beats, self[0].stops)
                 ]
             )
